@@ -9,7 +9,7 @@ R14.4 VariableIdentifierNotFound / FunctionIdentifierNotFound are built only fro
       node / of the call.
 Not decided: that the explicit-stack traversal is a pre-order of every tree shape."""
 import re
-from absint import Interp, ADT, SYM, UNK, NONE, fmt, Budget, is_adt
+from absint import Interp, ADT, SYM, C, UNK, NONE, fmt, Budget, is_adt
 from mirlib import path_endswith, callee_matches
 
 EXPLANATION = ('closure tables: each iterator filter closure is abstractly evaluated for all 32 operator variants; expectation from the method name; '
@@ -122,8 +122,95 @@ def run(ctx):
                         proj_ok = True
         ctx.check(proj_ok, 'R14.3', 'OperatorIterMut::next:projection', 'projection', 'the mutable traversal yields `&mut node.operator` of the visited node', span=f2[0].span)
 
+    # R14.5 loop invariant of the explicit-stack traversal
+    r14_5(ctx, prog)
     # R14.4 who may construct the not-found errors, and from what
     r14_4(ctx, prog)
+
+
+def r14_5(ctx, prog):
+    """One iteration of `next()` has exactly three shapes, which together are the inductive step of a pre-order walk:
+    (a) empty stack => None, and None is returned in no other case;
+    (b) the top iterator yields a node n => n's children iterator is pushed on top and Some(n) is returned (so n's descendants
+        come next, before n's siblings);
+    (c) the top iterator is exhausted => it is popped and the loop continues with the parent's iterator.
+    `new` starts the stack with the children iterator of the root."""
+    from absint import NONE as N_
+    for tyname, proj in (('NodeIter', None), ('OperatorIterMut', 'operator')):
+        fs = [f for f in prog.fns if f.name == 'next' and tyname in (f.j.get('impl_self_ty') or '')]
+        if len(fs) != 1:
+            ctx.unrecognised('R14.5', tyname + '::next', 'missing', 'not found')
+            continue
+        f = fs[0]
+        try:
+            ps = Interp(prog, loop_bound=0, record_backedge=True).paths(f, [SYM('self')])
+        except Budget:
+            ctx.unrecognised('R14.5', tyname + '::next', 'budget', 'too complex', span=f.span)
+            continue
+        stack = ('proj', SYM('self'), ('stack',))
+        shapes = {'none': 0, 'yield': 0, 'pop': 0}
+        bad = []
+        for ret, eff in ps:
+            calls = [(e[0].split('::')[-1], e[2]) for e in eff if not e[0].startswith('<')]
+            br = [(e[2][0], e[2][1]) for e in eff if e[0] == '<branch>']
+            top = [v for v, t in br if v[0] == 'app' and v[1] == 'discriminant' and v[2][0][0] == 'app' and 'last_mut' in v[2][0][1] and v[2][0][2] == (stack,)]
+            top_some = [t for v, t in br if v in top]
+            inner = [(v, t) for v, t in br if v[0] == 'app' and v[1] == 'discriminant' and v[2][0][0] == 'app' and '::next#' in v[2][0][1]]
+            pushes = [a for nm, a in calls if nm == 'push' and a and a[0] == stack]
+            pops = [a for nm, a in calls if nm == 'pop' and a and a[0] == stack]
+            if ret == N_:
+                if top_some == [SYM('otherwise')] and not pushes and not pops and not inner:
+                    shapes['none'] += 1
+                else:
+                    bad.append('None is returned although the stack is not known to be empty (branches %s)' % [(fmt(v)[:60], fmt(t)) for v, t in br])
+            elif ret[0] == 'backedge':
+                if top_some == [C(1)] and len(inner) == 1 and inner[0][1] != C(1) and len(pops) == 1 and not pushes:
+                    shapes['pop'] += 1
+                else:
+                    bad.append('the loop continues without popping exactly the exhausted iterator (pops %d, pushes %d)' % (len(pops), len(pushes)))
+            elif is_adt(ret, 'option::Option', 'Some'):
+                okk = top_some == [C(1)] and len(inner) == 1 and inner[0][1] == C(1) and len(pushes) == 1 and not pops
+                if okk:
+                    n = ('proj', inner[0][0][2][0], ('as Some', '0'))
+                    want_ret = n if proj is None else ('proj', n[1], n[2] + (proj,))
+                    pushed = pushes[0][1]
+                    children = ('proj', n[1], n[2] + ('children',))
+                    okk = ret[4][0] == want_ret and pushed[0] == 'app' and pushed[1].split('::')[-1].split('#')[0] in ('iter', 'iter_mut') and pushed[2] == (children,)
+                    # the yielded node comes from the iterator on top of the stack
+                    okk = okk and inner[0][0][2][0][2] == (('proj', top[0][2][0], ('as Some', '0')),)
+                if okk:
+                    shapes['yield'] += 1
+                else:
+                    bad.append('a node is yielded without pushing exactly its own children iterator (returns %s, pushes %s)' % (fmt(ret)[:80], [fmt(a[1])[:80] for a in pushes]))
+            else:
+                bad.append('unexpected outcome %s' % fmt(ret)[:80])
+        good = not bad and shapes == {'none': 1, 'yield': 1, 'pop': 1}
+        ctx.check(good, 'R14.5', tyname + '::next', 'traversal-step', 'one step of the traversal is: empty stack => None; top yields n => push n.children, return n; top exhausted => pop and continue (shapes %s; problems %s)' % (shapes, bad[:2]), span=f.span)
+        ns = [g for g in prog.fns if g.name == 'new' and tyname in (g.j.get('impl_self_ty') or '')]
+        if len(ns) != 1:
+            ctx.unrecognised('R14.5', tyname + '::new', 'missing', 'not found')
+            continue
+        ps = Interp(prog).paths(ns[0], [SYM('node')])
+        effs = [e for p_ in ps for e in p_[1]]
+        arrays = [e[2][-1] for e in effs if e[0] in ('<store>', '<store-field>') and e[2][-1][0] == 'tuple']
+        want = ('proj', SYM('node'), ('children',))
+        good = len(ps) == 1 and len(arrays) == 1 and len(arrays[0][1]) == 1 and arrays[0][1][0][0] == 'app' and arrays[0][1][0][1].split('::')[-1].split('#')[0] in ('iter', 'iter_mut') and arrays[0][1][0][2] == (want,)
+        ctx.check(good, 'R14.5', tyname + '::new', 'initial-stack', 'the traversal starts with exactly the children iterator of the root on the stack (found %s)' % [fmt(a)[:100] for a in arrays], span=ns[0].span)
+    # the public entry points construct the iterators from self
+    for name, ty in (('iter', 'NodeIter'), ('iter_operators_mut', 'OperatorIterMut')):
+        g = [f for f in prog.fns if f.name == name and 'tree::iter' in f.path and f.kind == 'AssocFn']
+        if len(g) != 1:
+            ctx.unrecognised('R14.5', 'Node::' + name, 'missing', 'not found')
+            continue
+
+        def hook(it, fn, t, args):
+            c = t['callee']
+            if c.get('local') and c['name'] == 'new':
+                return ('app', short(c['def']), tuple(args))
+            return None
+        ps = Interp(prog, hook=hook).paths(g[0], [SYM('self')])
+        good = len(ps) == 1 and ps[0][0][0] == 'app' and ty in ps[0][0][1] and ps[0][0][2] == (SYM('self'),)
+        ctx.check(good, 'R14.5', 'Node::' + name, 'entry', 'Node::%s traverses self with %s::new(self)' % (name, ty), span=g[0].span)
 
 
 def cfg_iso_mod_projection(f1, f2, norm):
